@@ -61,11 +61,11 @@ R.contract('trusted:Storage.find_keys', trusted=True, self_type='Storage', param
     ensures=["forall('Key', lambda k: (k in result) == (k in DIRS))"], raises={'OSError': []}, frame=[])
 R.alias('Storage', 'find_keys', 'trusted:Storage.find_keys')
 
-R.contract('trusted:json.dump', trusted=True, params={'obj': 'Doc', 'fp': 'Handle'}, varargs=True,
+R.contract('trusted:json.dump', trusted=True, params={'obj': 'Doc', 'fp': 'Handle'}, varargs=True, ignored_kwargs=('indent',),
     ensures=["forall('Handle', lambda h: h.pending == (some(json_of(obj)) if h == fp else old(h.pending)))", "json_inv(json_of(obj)) == obj"],
     raises={'OSError': ["forall('Handle', lambda h: h.pending == old(h.pending))"], 'TypeError': ["forall('Handle', lambda h: h.pending == old(h.pending))"]},
     frame=['Handle.pending'], note='json.dump writes json(obj); a failure part-way leaves the file incomplete')
-R.contract('trusted:pickle.dump', trusted=True, params={'obj': 'Val', 'file': 'Handle'}, varargs=True,
+R.contract('trusted:pickle.dump', trusted=True, params={'obj': 'Val', 'file': 'Handle'}, varargs=True, ignored_kwargs=('protocol',),
     ensures=["forall('Handle', lambda h: h.pending == (some(pickle_of(obj)) if h == file else old(h.pending)))", "pickle_inv(pickle_of(obj)) == obj"],
     raises={'Exception': ["forall('Handle', lambda h: h.pending == old(h.pending))"]},
     frame=['Handle.pending'], note='pickle.dump may raise part-way (unpicklable object at depth, I/O error)')
